@@ -44,17 +44,13 @@ def unspentInfos (s : Store) : List (Option CInfo) :=
 
 def sumAmounts (l : List CInfo) : Int := (l.map (·.val.amount)).sum
 
-/-- credits of value zero are invisible to `Balance`; the index is only required to be exact on the others
-(rollback's `amt == 0` test loses the index entry of a zero-value credit: DESIGN §7-F6) -/
-def nz (c : CInfo) : Bool := c.val.amount != 0
-
 structure Inv (s : Store) : Prop where
   /-- the counter is the total of the mined credits without a mined spender -/
   counter : s.minedBalance = sumAmounts (minedUnspent s)
   /-- every entry of the unspent index points at a credit record (with its tx record) -/
   indexed : ∀ o ∈ unspentInfos s, o.isSome
-  /-- the unspent index lists exactly those credits (of non-zero value), each once -/
-  index : (((unspentInfos s).filterMap id).filter nz).Perm ((minedUnspent s).filter nz)
+  /-- the unspent index lists exactly those credits, each once -/
+  index : ((unspentInfos s).filterMap id).Perm (minedUnspent s)
   /-- block records are in height order (bbolt key order) -/
   sorted : (s.blocks.map (·.1)).Pairwise (· < ·)
   /-- every transaction listed in a block record has its record -/
@@ -69,9 +65,63 @@ def pairwiseLt : List Nat → Bool
 def invB (s : Store) : Bool :=
   decide (s.minedBalance = sumAmounts (minedUnspent s)) &&
   (unspentInfos s).all (·.isSome) &&
-  (((unspentInfos s).filterMap id).filter nz).isPerm ((minedUnspent s).filter nz) &&
+  ((unspentInfos s).filterMap id).isPerm (minedUnspent s) &&
   pairwiseLt (s.blocks.map (·.1)) &&
   s.blocks.all (fun p => p.2.txs.all fun tx => (s.txrecs.find? ⟨tx, ⟨p.1, p.2.hash⟩⟩).isSome)
+
+/-! ### executable form of the lookup-level invariant `WF` (Lemmas/WF.lean) and of the debit / unconfirmed-credit
+clauses that `rollback` relies on (driver op `inv`) -/
+
+def nodupB {α : Type} [DecidableEq α] : List α → Bool
+  | [] => true
+  | a :: t => !t.contains a && nodupB t
+
+def listedB (s : Store) (k : CredKey) (amount : Int) : Bool :=
+  match s.blocks.find? k.block.height, s.txrecs.find? k.txKey with
+  | some br, some rec => br.hash == k.block.hash && br.txs.contains k.hash && rec.outs[k.index]? == some amount
+  | _, _ => false
+
+def wfB (s : Store) : Bool :=
+  nodupB (s.credits.map (·.1)) && nodupB (s.unspent.map (·.1)) && nodupB (s.unminedCredits.map (·.1)) &&
+  pairwiseLt (s.blocks.map (·.1)) &&
+  s.blocks.all (fun p => nodupB p.2.txs) &&
+  s.blocks.all (fun p => p.2.txs.all fun tx => (s.txrecs.find? ⟨tx, ⟨p.1, p.2.hash⟩⟩).isSome) &&
+  s.txrecs.all (fun p => p.2.hash == p.1.hash &&
+    match s.blocks.find? p.1.block.height with
+    | some br => br.hash == p.1.block.hash && br.txs.contains p.1.hash
+    | none => false) &&
+  nodupB (s.txrecs.map (·.1.hash)) &&
+  s.credits.all (fun p => listedB s p.1 p.2.amount) &&
+  s.unspent.all (fun p => match s.credits.find? ⟨p.1.hash, p.2, p.1.index⟩ with | some cv => !cv.spent | none => false) &&
+  s.credits.all (fun p => p.2.spent || s.unspent.find? p.1.outPoint == some p.1.block) &&
+  decide (s.minedBalance = (s.credits.map fun p => if p.2.spent then 0 else p.2.amount).sum)
+
+/-- debits: each points at an existing, spent credit that names it as spender, spends the input it is recorded for,
+and sits at or above the credit's block -/
+def debitsB (s : Store) : Bool :=
+  nodupB (s.debits.map (·.1)) &&
+  s.debits.all fun p =>
+    (match s.credits.find? p.2.credKey with
+     | some cv => cv.spent && cv.spender == some p.1 && cv.amount == p.2.amount
+     | none => false) &&
+    (match s.txrecs.find? p.1.txKey with
+     | some rec => rec.ins[p.1.index]? == some p.2.credKey.outPoint
+     | none => false) &&
+    decide (p.2.credKey.block.height ≤ p.1.block.height)
+
+/-- every spent credit has its debit -/
+def spentHaveDebitsB (s : Store) : Bool :=
+  s.credits.all fun p => !p.2.spent ||
+    match p.2.spender with
+    | some dk => (match s.debits.find? dk with | some d => d.credKey == p.1 | none => false)
+    | none => false
+
+/-- unconfirmed credits are outputs of the unconfirmed record with that hash -/
+def unminedB (s : Store) : Bool :=
+  s.unminedCredits.all (fun p => match s.unmined.find? p.1.hash with
+    | some rec => rec.hash == p.1.hash && rec.outs[p.1.index]? == some p.2.amount
+    | none => false) &&
+  s.unmined.all (fun p => p.2.hash == p.1)
 
 /-- C01's formula evaluated on the store's own records: mined credits without mined spender that are not leased,
 not spent by an unconfirmed transaction, deep enough and (if coinbase) mature, plus — at minConf 0 — the
